@@ -107,25 +107,32 @@ def _det(a):
     return d
 
 
-def degeneracy_certificates(rows, fed, R=6):
-    """Small integer combinations c of the element balances: (dep, fz) where dep makes
-    every species weight zero (dependent balances) and fz is >= 0 on every species, zero
-    on every fed species and positive on the largest possible set (forced-zero species)."""
+def degeneracy_certificates(rows, fed, R=4):
+    """Integer combinations c of the element balances: (dep, fz).  dep: every species
+    weight E_i.c is zero (dependent balances).  fz: weights >= 0, zero on every fed
+    species, positive on as many species as possible (those species are forced to zero).
+    c is searched in the integer null space of the fed rows (coefficients -R..R on its
+    basis).  TLC verifies whatever is proposed (EqLin!DependentElements / ForcedZero)."""
     n = len(rows)
     m = len(rows[0])
-    dep, fz, best = [], [], 0
-    for c in itertools.product(range(-R, R + 1), repeat=m):
-        if not any(c):
+    cols = [[rows[i][j] for i in range(n)] for j in range(m)]            # elements x species
+    depB = null_basis(cols)[0]
+    dep = depB[0] if depB else []
+    fed_idx = [i for i in range(n) if fed[i]]
+    if fed_idx:
+        basis = null_basis([[rows[i][j] for i in fed_idx] for j in range(m)])[0]
+    else:
+        basis = [[1 if a == b else 0 for b in range(m)] for a in range(m)]
+    fz, best = [], 0
+    for co in itertools.product(range(-R, R + 1), repeat=len(basis)):
+        if not any(co):
             continue
+        c = [sum(co[b] * basis[b][j] for b in range(len(basis))) for j in range(m)]
         w = [sum(rows[i][j] * c[j] for j in range(m)) for i in range(n)]
-        if not any(w):
-            if not dep:
-                dep = list(c)
-            continue
-        if min(w) >= 0 and all(w[i] == 0 for i in range(n) if fed[i]):
+        if min(w) >= 0:
             cnt = sum(1 for x in w if x > 0)
-            if cnt > best:
-                best, fz = cnt, list(c)
+            if cnt > best or (cnt == best and cnt and sum(map(abs, c)) < sum(map(abs, fz))):
+                best, fz = cnt, c
     return dep, fz
 
 
